@@ -172,7 +172,7 @@ class OperationGroup(ContextMixin, ContentMixin):
                     storage_limit if storage_limit is not None else default_storage_limit(x, constants),
                 )
             ),
-            'fee': lambda i, x: str(default_fee(x, gas_limit, minimal_nanotez_per_gas_unit)),
+            'fee': lambda i, x: str(default_fee(x, int(x['gas_limit']), minimal_nanotez_per_gas_unit)),
         }
 
         def fill_content(idx, content):
